@@ -183,7 +183,13 @@ func (c *tpChan) openMsg(restart bool) datatransfer.Message {
 	return m
 }
 
-func tpScenario(r *RunCtx) {
+func tpScenario(r *RunCtx) { tpScenarioMode(r, false) }
+
+// tpRequesterAway biases the drivers towards the sequence "requester pauses (= cancels at the responder), the
+// responder resumes with a message while the requester is away, the requester comes back", repeated.
+func tpRequesterAway(r *RunCtx) { tpScenarioMode(r, true) }
+
+func tpScenarioMode(r *RunCtx, away bool) {
 	w := r.W
 	mk := func(name string) *tpNode {
 		n := &tpNode{name: name, id: peer.ID("peer-" + name), r: r, store: NewStore(),
@@ -283,6 +289,37 @@ func tpScenario(r *RunCtx) {
 			}
 			open(c, false)
 			nops := r.Intn(7)
+			if away {
+				nops = 0
+				rounds := 1 + r.Intn(3)
+				for k := 0; k < rounds; k++ {
+					yieldN(1 + r.Intn(6*c.nblocks+4))
+					err := c.req.tp.PauseChannel(context.Background(), c.chid)
+					w.Logf("OP %s PauseChannel #%d -> %v", c.req.name, c.idx, err)
+					yieldN(4 + r.Intn(6*c.nblocks+4))
+					if r.Intn(4) != 0 {
+						tv := datatransfer.TypedVoucher{Voucher: basicnode.NewString(fmt.Sprintf("away-%d-%d", c.idx, k)), Type: "Q"}
+						var msg datatransfer.Message
+						if c.resp == A {
+							msg, _ = message.VoucherRequest(c.chid.ID, &tv)
+						} else {
+							msg, _ = message.VoucherResultResponse(c.chid.ID, true, false, &tv)
+						}
+						resumeMsgs = append(resumeMsgs, queuedMsg{c: c, enc: encNode(tv.Voucher), step: r.S.Steps})
+						err := c.resp.tp.ResumeChannel(context.Background(), msg, c.chid)
+						w.Logf("OP %s ResumeChannel(msg) #%d -> %v", c.resp.name, c.idx, err)
+						yieldN(r.Intn(6))
+					}
+					var rmsg datatransfer.Message
+					if c.req == A {
+						rmsg = message.UpdateRequest(c.chid.ID, false)
+					} else {
+						rmsg = message.UpdateResponse(c.chid.ID, false)
+					}
+					err = c.req.tp.ResumeChannel(context.Background(), rmsg, c.chid)
+					w.Logf("OP %s ResumeChannel #%d -> %v", c.req.name, c.idx, err)
+				}
+			}
 			for k := 0; k < nops; k++ {
 				yieldN(1 + r.Intn(8*c.nblocks+4))
 				n := c.req
@@ -659,4 +696,6 @@ func (f fakeRecvState) ReceivedCidsTotal() int64 { return f.recv }
 func init() {
 	Register("C16", Stratum{Name: "transport-two-endpoints", Weight: 1, Fn: tpScenario, MaxSteps: 300_000, Horizon: time.Hour})
 	Register("C10", Stratum{Name: "transport-two-endpoints", Weight: 2, Fn: tpScenario, MaxSteps: 300_000, Horizon: time.Hour})
+	Register("C10", Stratum{Name: "transport-requester-away", Weight: 2, Fn: tpRequesterAway, MaxSteps: 300_000, Horizon: time.Hour})
+	Register("C16", Stratum{Name: "transport-requester-away", Weight: 1, Fn: tpRequesterAway, MaxSteps: 300_000, Horizon: time.Hour})
 }
